@@ -244,7 +244,7 @@ func H_C01_slices() {
 // ---------------------------------------------------------------------------------------------------------
 // C02: total and resource-bounded on arbitrary input
 
-//verif:h prop=C02 p.maxlen=5/8 cover=ok,error steps=600000 runs=3000000 timeout=250/900
+//verif:h prop=C02 p.maxlen=5/8 cover=ok,error steps=600000 runs=3000000 timeout=900/900
 func H_C02_deserializer() {
 	src := verifrt.Bytes("src", verifrt.Param("maxlen", 5))
 	verifrt.AllocBudget(2*len(src) + 40)
@@ -455,7 +455,7 @@ func H_C01_slicelen() {
 
 // H_C03_canonical: whatever byte string the validating reader accepts re-encodes to exactly the consumed bytes.
 //
-//verif:h prop=C03 p.maxlen=4/6 cover=bool,slice,sequence,rejected,uint256,time,time-saturated steps=600000 runs=3000000 timeout=250/900
+//verif:h prop=C03 p.maxlen=4/6 cover=bool,slice,sequence,rejected,uint256,time,time-saturated steps=600000 runs=3000000 timeout=900/900
 func H_C03_canonical() {
 	kind := verifrt.Choose("kind", 5)
 	if kind >= 3 {
